@@ -23,6 +23,11 @@ CHECKS = {
    note="Trusted: Coq kernel/vm_compute; Model/PTFile.v; the crash semantics of HDF5 is observed on the real library, not modelled; os._exit stands for process death.",
    technique="Coq invariant over writer operation sequences + crash-point enumeration on the real writer",
    design="3/C17"),
+ "C13": dict(
+   text="Theorems (Coq): labels are start + k*dt, k = 0..n, n+1 of them, and record_all=False keeps exactly the label of step n (grid_labels, unbounded); Dynamics.add keeps times sorted and every state attached to its time for every sequence of additions (dynamics_sorted, invariant by induction); in binary64 (Coq primitive floats), on the decimal lattice dt=a/100, start in {0,+-0.3,1,2.5,-7.1,100.3}, m<=1000 the step count is m for literal, computed and off-grid end times (num_steps_lattice, 7M points by vm_compute, lifted generically) and tcut<->dkmax round-trips (tcut_dkmax_lattice); the pre-repair truncating formula is refuted. Tied to /repo bit-for-bit: step counts and time labels of Tempo, MeanFieldTempo, PtTempo, compute_dynamics, compute_dynamics_with_field, compute_gradient_and_dynamics, TempoParameters, Dynamics.add against the model on every run.",
+   note="Trusted: Coq kernel/vm_compute incl. primitive floats and 63-bit ints (Print Assumptions lists them); Model/TimeGrid.v, Lib/PyFloat.v; Python harness; exact-rational oracle (fractions) for the search. Float statements are finite-lattice statements, the lattice is in the theorem.",
+   technique="Coq proof: induction for list/label logic, exhaustive vm_compute sweep over a stated binary64 lattice; bit-exact differential correspondence",
+   design="3/C13"),
 }
 
 NOT_YET = {}
